@@ -120,6 +120,9 @@ type World struct {
 	scnID   string
 	quiesceTimeout time.Duration
 	sentMark  int
+	barrierSeq int
+	gate    *gateCtl
+	cancels map[string]context.CancelFunc
 	expectPub bool
 }
 
@@ -554,6 +557,11 @@ func (w *World) resetScenario(id string) {
 	w.byRepl = map[interface{}]interface{}{}
 	w.hookFn = nil
 	w.mu.Unlock()
+	w.gate = nil
+	for _, c := range w.cancels {
+		c()
+	}
+	w.cancels = nil
 	w.names = map[string]int{}
 	w.entries = nil
 	w.stores = map[int]iface.Store{}
